@@ -41,7 +41,7 @@ def collect(progs, settings_of):
             st = r["st"]
             cls = "teal" if "teal" in r else ("pyteal" if r.get("pyteal_error") else "other")
             outs.append({"v": st["v"], "mode": st.get("mode") or p.get("mode", "app"), "tag": pipeline.settings_tag(st),
-                         "opt": bool(pipeline._opt_on(st)), "cls": cls, "err": r.get("err", ""), "cvar": r.get("cvar", 0)})
+                         "opt": bool(pipeline._opt_on(st)), "ac": 1 if st.get("ac") else 0, "cls": cls, "err": r.get("err", ""), "cvar": r.get("cvar", 0)})
         entries.append({"recipe": {"main": p["main"], "rt": p.get("rt", []), "vars": p.get("vars", [])}, "outs": outs})
     return entries, results
 
